@@ -73,6 +73,7 @@ class Case:
     """data: ndarray [nc, ns] float32/float64; mv: value as passed to saturation()."""
 
     reader = False
+    long = False
 
     def __init__(self, data, mv_kind, mv_vals, vps, fs, prop, M, origin, calls=1):
         self.layout = (int(np.asarray(data).size) + int(M)) % 2      # deterministic mix of memory layouts
@@ -835,6 +836,130 @@ def gen_reader(rng, kind, M):
 
 
 
+# --------------------------------------------------------------------------
+# LONG recordings (ns around 2**20 and beyond): exact mute clauses by a vectorised NumPy oracle
+# --------------------------------------------------------------------------
+# The Coq model is not run on a million samples.  What is checked are consequences of the proved
+# theorems, which hold for EVERY length: C16_mute_range (0 <= mute <= 1), C16_mute_zero_on_flags,
+# C16_mute_one_outside_support (exactly 1 outside the reach of every flag) and
+# C16_mute_depends_on_flags_only + C16_mute_one_outside_support: the mute around a group of flags
+# depends on the flags within reach and on the distance to the array ends only, so the same flag
+# pattern embedded in a SHORT array (the "twin", which does go through the model) must give
+# bit-identical mute values around the flags.
+LONG_EDGE = 1024          # flags live within this distance of the start, the end or the centre
+SHORT_NS = 4 * LONG_EDGE
+
+
+class LongCase(Case):
+    """nc x ns float32 zeros with unit spikes (range 1.0, slew rule off) at start-/end-/centre-relative
+    positions; the same relative positions in an array of SHORT_NS samples are the twin."""
+    long = True
+
+    def __init__(self, ns, nc, M, at_start, at_end, at_mid, origin="long"):
+        self.par = {"ns": int(ns), "nc": int(nc), "M": int(M), "at_start": sorted(at_start),
+                    "at_end": sorted(at_end), "at_mid": sorted(at_mid)}
+        Case.__init__(self, self.build(ns), "pyfloat", [1.0], 1e30, 30000, 0.2, M, origin)
+
+    def positions(self, ns):
+        p = self.par
+        return sorted(set(p["at_start"]) | {ns - 1 - e for e in p["at_end"]} | {ns // 2 + m for m in p["at_mid"]})
+
+    def build(self, ns):
+        data = np.zeros((self.par["nc"], ns), dtype=np.float32)
+        pos = self.positions(ns)
+        data[:, pos] = np.float32(1.0)
+        data[0, pos[::2]] = np.float32(-1.0)
+        return data
+
+    def twin(self):
+        p = self.par
+        t = LongCase(SHORT_NS, p["nc"], p["M"], p["at_start"], p["at_end"], p["at_mid"], origin="long_short_twin")
+        t.long = False
+        return t
+
+    def describe(self):
+        return {"long_case": self.par, "dtype": "float32", "shape": list(self.data.shape),
+                "mute_window_samples": self.M, "origin": self.origin}
+
+
+def gen_long(rng, ns, nc, M):
+    k = LONG_EDGE - 2 * M - 4
+    def some(n, lo, hi):
+        out = set()
+        for _ in range(n):
+            a = rng.randrange(lo, hi)
+            out |= set(range(a, min(hi, a + rng.choice([1, 1, 2, 3]))))
+            if rng.random() < 0.4:
+                out.add(min(hi - 1, a + rng.choice([2, M // 2 + 1, M, M + 1])))     # adjacent runs
+        return out
+    at_start = some(3, 0, k) | {0} if rng.random() < 0.7 else some(3, 1, k)
+    at_end = some(3, 0, k) | ({0} if rng.random() < 0.7 else set())
+    at_mid = some(3, -k // 2, k // 2)
+    return LongCase(ns, nc, M, at_start, at_end, at_mid)
+
+
+def oracle_long(c, obs, twin_obs):
+    """exact clauses, vectorised; list of (clause, message)"""
+    if obs[0] == "raise":
+        return [("raises", "saturation raised %r on a long recording" % (obs[1],))]
+    if obs[0] == "malformed":
+        return [("malformed_return", obs[1])] + list(obs[2])
+    fl, mu = obs[1], obs[2]
+    ns, M = c.data.shape[1], c.M
+    bad = list(obs[3])
+    pos = np.array(c.positions(ns))
+    exp = np.zeros(ns, dtype=bool)
+    exp[pos] = True
+    if not np.array_equal(fl, exp):
+        j = int(np.flatnonzero(fl != exp)[0])
+        bad.append(("flags_rule", "long recording: flag at sample %d is %s, the rule gives %s" % (j, bool(fl[j]), bool(exp[j]))))
+        return bad
+    if not bool(np.all((mu >= 0) & (mu <= 1))):
+        j = int(np.flatnonzero(~((mu >= 0) & (mu <= 1)))[0])
+        bad.append(("mute_range", "long recording (ns=%d): mute[%d] = %r leaves [0,1]" % (ns, j, float(mu[j]))))
+    if M % 2 == 1 and np.any(mu[pos] != 0.0):
+        j = int(pos[np.flatnonzero(mu[pos] != 0.0)[0]])
+        bad.append(("mute_zero_on_flag", "long recording: mute is %r (not 0) on flagged sample %d" % (float(mu[j]), j)))
+    far = np.ones(ns, dtype=bool)
+    for i in pos:
+        far[max(0, i - M // 2):i + M // 2 + 1] = False
+    w = np.flatnonzero(far & (mu != 1.0))
+    if w.size:
+        bad.append(("mute_one_far", "long recording (ns=%d): mute is %r (not 1) at sample %d, farther than M/2 from "
+                    "every flag (%d such samples)" % (ns, float(mu[w[0]]), int(w[0]), int(w.size))))
+    if twin_obs is not None and twin_obs[0] == "ok":
+        mt = twin_obs[2]
+        E, h = LONG_EDGE, SHORT_NS // 2
+        for name, a, b in (("start", mu[:E], mt[:E]), ("end", mu[-E:], mt[-E:]),
+                           ("centre", mu[ns // 2 - E // 2: ns // 2 + E // 2], mt[h - E // 2: h + E // 2])):
+            if not np.array_equal(a, b):
+                j = int(np.flatnonzero(a != b)[0])
+                bad.append(("mute_flags_only", "the same flag pattern gives a different mute in a %d-sample and in a "
+                            "%d-sample array (%s region, offset %d: %r vs %r)"
+                            % (ns, SHORT_NS, name, j, float(a[j]), float(b[j]))))
+                break
+    return bad
+
+
+def run_long(ctx, long_cases, dist):
+    """observe each long case and its short twin; the twins are returned to join the ordinary cases"""
+    twins = []
+    for c in long_cases:
+        t = c.twin()
+        twins.append(t)
+        obs = impl_observe(c)
+        try:
+            bad = oracle_long(c, obs, impl_observe(t))
+        except Exception as e:
+            bad = [("malformed_return", "the long-recording oracle could not be evaluated: %r" % (e,))]
+        for clause, msg in bad:
+            ctx.fail(msg, c.describe(), c.tags(clause))
+        dist["long_ns"] = dist.get("long_ns", []) + [c.data.shape[1]]
+        c.data = None           # release the memory
+    return twins
+
+
+
 def gen_special(rng):
     """Infinities from overflowing differences, negative proportion (the appended 0 fires),
     shapes that broadcast oddly or not at all."""
@@ -936,11 +1061,17 @@ def compare_model(ctx, cases, inputs, outs, observations):
 def run(ctx):
     common.proof_obligations(ctx, whitelist=WHITELIST)
     cases = gen_cases(ctx)
+    long_sizes = [(2 ** 20 + 1, 1, 7), (2 ** 20 + 7, 2, 5)]
+    if ctx.thorough():
+        long_sizes += [(2 ** 20 - 1, 1, 7), (2 ** 20, 1, 7), (2 ** 20 + 1, 2, 11), (2 ** 21 + 3, 1, 7), (2 ** 22, 1, 9),
+                       (2 ** 20 + 2, 1, 3)]
+    long_cases = [gen_long(ctx.rng, ns, nc, M) for ns, nc, M in long_sizes]
     inputs, outs, observations = [], [], []
     dist = {"origin": {}, "dtype": {}, "mv_kind": {}, "window": {}, "nc_max": 0, "ns_max": 0,
             "raises": 0, "flag_at_first": 0, "flag_at_last": 0, "isolated_flag": 0, "no_flag": 0, "all_flag": 0,
             "count_exactly_at_proportion": 0}
     nontrivial = set()
+    cases += run_long(ctx, long_cases, dist)
     for c in cases:
         observations.append(impl_observe(c))
     EVEN_REPAIRED[0] = even_windows_repaired(cases, observations)
@@ -1001,7 +1132,7 @@ def run(ctx):
              "scale of one gain group, oracle in exact rationals with full scale = imAiRangeMax/gain.  Each case runs the real ibldsp.voltage.saturation, the "
              "property oracle, a mirrored-input metamorphic check and the Coq model (flags bit-exact, mute "
              "within 2^-36).  non-trivial = at least one flagged and one unflagged sample; distinct by content",
-        samples=samples, evaluations=len(cases), distinct_nontrivial=len(nontrivial),
+        samples=samples, evaluations=len(cases) + len(long_cases), distinct_nontrivial=len(nontrivial),
         extra={"input_distribution": dist, "exhaustive": False},
         assumptions=["NaN voltages are outside the domain",
                      "fs and v_per_sec are Python scalars (a NumPy float64 scalar fs would promote float32 data)",
@@ -1014,6 +1145,14 @@ def replay(ctx, data):
     if not inp:
         print(json.dumps(data, indent=1)[:3000])
         return 1
+    if "long_case" in inp:
+        q = inp["long_case"]
+        c = LongCase(q["ns"], q["nc"], q["M"], q["at_start"], q["at_end"], q["at_mid"])
+        obs = impl_observe(c)
+        bad = oracle_long(c, obs, impl_observe(c.twin()))
+        print("long recording ns=%d nc=%d M=%d, flags at %s" % (q["ns"], q["nc"], q["M"], c.positions(q["ns"])[:20]))
+        print("property clauses failing on the implementation:", bad)
+        return 1 if bad else 0
     c = Case.from_description(inp)
     if "meta_text" in inp:
         c = ReaderCase(inp["reader_kind"], inp["meta_text"], [Fraction(f) for f in inp["true_full_scale"]],
